@@ -42,7 +42,18 @@ structure Job where
   eps : List String
 deriving DecidableEq, Repr
 
+/-- A transaction in flight, anchored (`TxnPoliciesAccessor.setTxnVersion`) to the policies version that was in
+    force when its request leg reached the engine. -/
+structure Txn where
+  id : String
+  req : Req               -- request of the policies version it is anchored to
+  anchor : Nat            -- instant of anchoring
+  sup : Option Nat        -- instant at which that version was superseded by an update
+  voided : Bool           -- superseded by an update that un-manages immediately (fail-safe revert: by design)
+deriving DecidableEq, Repr
+
 structure St where
+  txns : List Txn := []
   now : Nat := 0
   managed : List String := []          -- endpoints.map (a set; duplicates are immaterial)
   all : Bool := false                  -- proc.manage_all
@@ -79,6 +90,10 @@ def delAll : Nat → List String → List String × Nat
   | 0, e :: es => let r := delAll 0 es; (e :: r.1, r.2)
   | f + 1, _ :: _ => ([], f)
 
+/-- `setNextVersion`: the transactions anchored to the version in force now see it superseded at `t`. -/
+def supersede (t : Nat) (txns : List Txn) : List Txn :=
+  txns.map fun x => if x.sup.isNone then { x with sup := some t } else x
+
 /-- One update (`UpdatePoliciesData`; the flows path is the same without the global job).  The manage request
     comes FIRST; only when it went through are the new policies published (`setNextVersion`) and the un-manage of
     what left the configuration scheduled.  `publishFirst` = the other order (not the code; for the witness). -/
@@ -94,12 +109,13 @@ def reload (m : Mode) (st : St) (new : Req) (publishFirst : Bool := false) : St 
   if new.ma then
     match st.failPut with
     | f + 1 => { st with allStamp := s, serial := s, failPut := f, cur := curFail }        -- PUT /manage_all refused
-    | 0 => { st with all := true, allStamp := s, serial := s, cur := new, jobs := st.jobs ++ jobsG ++ jobsE }
+    | 0 => { st with all := true, allStamp := s, serial := s, cur := new, jobs := st.jobs ++ jobsG ++ jobsE,
+                     txns := supersede st.now st.txns }
   else
     let r := putAll st.failPut new.eps
     let st1 := { st with managed := st.managed ++ r.1, stamps := r.2.1.map (·, s) ++ st.stamps, serial := s,
                          failPut := r.2.2.1 }
-    if r.2.2.2 then { st1 with cur := new, jobs := st.jobs ++ jobsG ++ jobsE }
+    if r.2.2.2 then { st1 with cur := new, jobs := st.jobs ++ jobsG ++ jobsE, txns := supersede st.now st.txns }
     else { st1 with cur := curFail }
 
 /-- Does the manage request of an update go through (no PUT refused)? -/
@@ -132,9 +148,26 @@ def reloadNow (m : Mode) (st : St) (new : Req) : St :=
   if !reloadOK st new then st1
   else
     let st2 := ((st1.jobs.drop st.jobs.length).reverse).foldl (fire m) st1
-    { st2 with jobs := st.jobs }
+    { st2 with jobs := st.jobs, txns := st2.txns.map fun x => { x with voided := true } }
+
+/-- The request leg of transaction `id` reaches the engine: it is anchored to the version in force. -/
+def anchorTxn (st : St) (id : String) : St :=
+  if st.txns.any (·.id == id) then st else { st with txns := st.txns ++ [⟨id, st.cur, st.now, none, false⟩] }
+
+/-- Is the transaction still served from its anchored version?  (`txnVersionsVacuum` / `policiesVersionsVacuum`
+    keep the anchor and a superseded version for `ttl`; the precise end of that retention is C11's subject.) -/
+def Txn.valid (x : Txn) (now : Nat) : Bool :=
+  !x.voided && decide (now < x.anchor + ttl) && (match x.sup with | none => true | some s => decide (now < s + ttl))
+
+/-- What the engine would still apply to the response leg of transaction `id`: the request of its anchored
+    version, while that version is retained. -/
+def txnView (st : St) (id : String) : Option Req :=
+  match st.txns.find? (·.id == id) with
+  | some x => if x.valid st.now then some x.req else none
+  | none => none
 
 inductive Ev where
+  | txn (id : String)
   | reload (r : Req)
   | reloadNow (r : Req)
   | advance (d : Nat)
@@ -142,6 +175,7 @@ inductive Ev where
 deriving Repr
 
 def step (m : Mode) (st : St) : Ev → St
+  | .txn id => anchorTxn st id
   | .reload r => reload m st r
   | .reloadNow r => reloadNow m st r
   | .advance d => advance m st d
